@@ -46,7 +46,8 @@ func (db *DB) CreateInBatches(value interface{}, batchSize int) (tx *DB) {
 
 				subtx := tx.getInstance()
 				subtx.Statement.Dest = reflectValue.Slice(i, ends).Interface()
-				subtx.callbacks.Create().Execute(subtx)
+				// Execute may return another instance (a scope that returns its own *DB)
+				subtx = subtx.callbacks.Create().Execute(subtx)
 				if subtx.Error != nil {
 					return subtx.Error
 				}
